@@ -180,12 +180,14 @@ enum Act {
     Poll,
     Res(usize, i64),
     Drop(usize),
+    Abort(u32),
 }
 fn parse_act(s: &Sexp) -> Option<Act> {
     Some(match s.form()? {
         ("poll", []) => Act::Poll,
         ("res", [k, v]) => Act::Res(k.num()?, v.num()?),
         ("drop", [k]) => Act::Drop(k.num()?),
+        ("abort", [n]) => Act::Abort(n.num()?),
         _ => return None,
     })
 }
@@ -234,13 +236,18 @@ fn run_race(c: &Cmd, pre: &[Act], a1: Act, a2: Act, order: Vec<usize>) -> Option
                     *slot = None;
                 }
             }
+            Act::Abort(n) => {
+                if let Some((_, h)) = aborts.iter().find(|(m, _)| m == n) {
+                    h();
+                }
+            }
         }
         observe(&mut cmd, &mut pre_seen, &mut reqs);
     }
     // only one of the two concurrent actions may use the command; the other takes its request out first
     let take = |a: &Act, reqs: &mut Vec<Option<Request<TestOp>>>| -> Option<Option<Request<TestOp>>> {
         match a {
-            Act::Poll => None,
+            Act::Poll | Act::Abort(_) => None,
             Act::Res(k, _) | Act::Drop(k) => Some(reqs.get_mut(*k).and_then(|s| s.take())),
         }
     };
@@ -273,6 +280,13 @@ fn run_race(c: &Cmd, pre: &[Act], a1: Act, a2: Act, order: Vec<usize>) -> Option
             }
             (Act::Drop(_), Some(Some(r))) => {
                 drop(r);
+                ("-".into(), None)
+            }
+            (Act::Abort(n), _) => {
+                // AbortHandle::abort from another thread than the one polling the command
+                if let Some((_, h)) = aborts.iter().find(|(m, _)| m == n) {
+                    h();
+                }
                 ("-".into(), None)
             }
             _ => ("noreq".into(), None),
@@ -772,7 +786,7 @@ fn gen_evict(seed: u64, n: usize) {
     }
 }
 
-fn gen_race(seed: u64, n: usize) {
+fn gen_race(seed: u64, n: usize, all_abort: bool) {
     use harness::gen::Gen;
     let out = std::io::stdout();
     let mut out = std::io::BufWriter::new(out.lock());
@@ -816,6 +830,30 @@ fn gen_race(seed: u64, n: usize) {
         };
         let len = 4 + g.r.below(14);
         let order: Vec<usize> = (0..len).map(|_| g.r.below(2) as usize).collect();
+        if all_abort || i % 4 == 3 {
+            // AbortHandle::abort on one thread against is_done() / resolve / drop on the other; the aborted command is
+            // hosted by a combinator in most shapes (the abort must wake its host)
+            let inner = Cmd::Abortable(0, Box::new(c.clone()));
+            let other_c = g.cmd(1, 3, 8);
+            let shaped = match g.r.below(7) {
+                0 => inner,
+                1 => Cmd::Then(Box::new(inner), Box::new(other_c)),
+                2 => Cmd::Then(Box::new(other_c), Box::new(inner)),
+                3 => Cmd::And(Box::new(inner), Box::new(other_c)),
+                4 => Cmd::All(vec![other_c, inner]),
+                5 => Cmd::MapEv(10, Box::new(inner)),
+                _ => Cmd::MapEf(1, Box::new(Cmd::Then(Box::new(inner), Box::new(other_c)))),
+            };
+            let ab = list(vec![atom("abort"), atom(0)]);
+            let (b1, b2) = match g.r.below(4) {
+                0 | 1 => (list(vec![atom("poll")]), ab),
+                2 => (ab, list(vec![atom("poll")])),
+                _ => (ab, other(&mut g, k1, 203)),
+            };
+            let line = list(vec![atom("race"), shaped.sexp(), list(pre), b1, b2, order_sexp(&order)]);
+            writeln!(out, "{line}").unwrap();
+            continue;
+        }
         let line = list(vec![atom("race"), c.sexp(), list(pre), a1, a2, order_sexp(&order)]);
         writeln!(out, "{line}").unwrap();
     }
@@ -932,7 +970,8 @@ fn main() {
                 "evict" => gen_evict(seed, n),
                 "corerace" => gen_corerace(seed, n),
                 "bridgerace" => gen_bridgerace(seed, n),
-                _ => gen_race(seed, n),
+                "abortrace" => gen_race(seed, n, true),
+                _ => gen_race(seed, n, false),
             }
         }
         Some("run") => run(),
